@@ -9,6 +9,7 @@ CONSTANTS
   Styles <- StylesAll
   KeyVals <- KeyValsAll
   Cfgs <- CfgsAll
+  Entries <- EntriesAll
   NKeys <- NKeysAll
   Knowns <- KnownsAll
   DestOwns <- DestOwnsAll
